@@ -1,7 +1,8 @@
 // C14 harness: arbitrary public-API calls on a *test* emitter and, only when the test accepted them, on a
 // *shadow* emitter that therefore has seen the accepted calls only.  After every call one line is printed:
 //
-//   <err> H <handler errors|-> T <0|1 thrown> O <options> <extraSig> <extraId> <comment 0|1> B <snap> A <snap> S <snap> X <extra>
+//   <err> H <handler errors|-> T <0|1 thrown> O <options> <extraSig> <extraId> <comment 0|1> P <same 4 fields before the call> B <snap> A <snap> S <snap> X <extra>
+//   (a non-instruction call may be prefixed by "@<options hex>,<extra type.id|->,<comment 0|1>": one-shot state set right before it)
 //
 //   snap  = sec=<size,size,..> lab=<n> bnd=<n> rel=<n> fix=<n> adr=<n> nod=<n> cur=<section> off=<offset> h=<fnv of the full dump>
 //   extra = what the accepted call did, for the model's oracle part:
@@ -448,6 +449,33 @@ CallOut do_call(Side& s, const std::vector<std::string>& w) {
   return r;
 }
 
+// "@<options hex>,<extra type.id|->,<comment 0|1>": one-shot state set right before a non-instruction call
+struct Pre { bool present = false; uint64_t opts = 0; std::string extra = "-"; int cmt = 0; };
+
+bool parse_pre(const std::string& tok, Pre& p) {
+  std::vector<std::string> f;
+  split(tok.substr(1), ',', f);
+  int64_t c;
+  if (f.size() != 3 || !vh::parse_hex(f[0], p.opts) || !num(f[2], c)) return false;
+  p.extra = f[1];
+  p.cmt = int(c);
+  p.present = true;
+  return true;
+}
+
+bool apply_pre(Side& s, const Pre& p) {
+  if (!p.present) return true;
+  BaseEmitter* em = s.em.get();
+  if (p.opts) em->add_inst_options(InstOptions(uint32_t(p.opts)));
+  if (p.extra != "-") {
+    Operand x;
+    if (!parse_operand("r" + p.extra, S.arch == Arch::kAArch64, x)) return false;
+    em->set_extra_reg(x.as<Reg>());
+  }
+  if (p.cmt) em->set_inline_comment(kComment);
+  return true;
+}
+
 std::string one_shot(BaseEmitter* em) {
   char b[96];
   snprintf(b, sizeof b, "%x %x %u %d", unsigned(em->inst_options()), em->extra_reg().signature().bits(), em->extra_reg().id(), em->inline_comment() ? 1 : 0);
@@ -498,10 +526,17 @@ std::string step(const std::string& line) {
   if (!S.test) return "badline no-session";
 
   Side& t = *S.test;
+  Pre pre;
+  if (w[0][0] == '@') {
+    if (!parse_pre(w[0], pre) || w.size() < 2 || w[1] == "emit") return "badline";
+    w.erase(w.begin());
+  }
   Snap before = snapshot(t);
   size_t hl = t.h.log.size();
   bool thrown = false;
   CallOut r;
+  if (!apply_pre(t, pre)) return "badline";
+  std::string os_before = one_shot(t.em.get());
   try {
     r = do_call(t, w);
   } catch (const Thrown& th) {
@@ -511,6 +546,8 @@ std::string step(const std::string& line) {
   if (r.bad_line) return "badline";
   Snap after = snapshot(t);
   std::string os = one_shot(t.em.get());
+  // the one-shot state a non-instruction call leaves behind is judged (O vs P) but not carried into the next call
+  if (pre.present) t.em->reset_state();
 
   std::string hs;
   for (size_t i = hl; i < t.h.log.size(); i++) { if (!hs.empty()) hs += ","; hs += std::to_string(t.h.log[i]); }
@@ -561,7 +598,8 @@ std::string step(const std::string& line) {
   Snap sh;
   if (r.err == Error::kOk || w[0] == "finalize") {
     CallOut rs;
-    try { rs = do_call(*S.shadow, w); } catch (const Thrown& th) { rs.err = th.err; }
+    try { apply_pre(*S.shadow, pre); rs = do_call(*S.shadow, w); } catch (const Thrown& th) { rs.err = th.err; }
+    if (pre.present) S.shadow->em->reset_state();
     sh = snapshot(*S.shadow);
     if (rs.err != r.err) sh.sizes += "!shadow-answered-" + std::to_string(uint32_t(rs.err));
   } else {
@@ -571,7 +609,7 @@ std::string step(const std::string& line) {
   if (getenv("VH_DUMP")) fprintf(stderr, "---- %s\n%s", line.c_str(), after.dump.c_str());
 
   std::string out = std::to_string(uint32_t(r.err));
-  out += " H " + hs + " T " + (thrown ? "1" : "0") + " O " + os + " B " + before.text() + " A " + after.text() + " S " + sh.text() + " X " + extra;
+  out += " H " + hs + " T " + (thrown ? "1" : "0") + " O " + os + " P " + os_before + " B " + before.text() + " A " + after.text() + " S " + sh.text() + " X " + extra;
   return out;
 }
 
